@@ -60,6 +60,22 @@ def run(ck):
     ck.rule("R2", "block removal purges its pendings; add_block resolves waiters and files pendings/edges", floor=5)
     ck.rule("R3", "rebuild_edges resets pendings and derives edges only from bto", floor=4)
     ck.rule("R4", "internal tables are written only by AsmCFG methods", floor=3)
+    ck.rule("R6", "constraints live in a set (AsmBlock.bto) and are updated in place: they are hashed by identity", floor=1)
+    # a constraint's target and kind are plain writable attributes (rebuild_edges and user code change them in place) and the
+    # constraint sits in the set `bto`: with a value-based __eq__ / __hash__ an updated constraint stays filed under its old hash,
+    # `bto.remove(c)` in del_edge raises KeyError half-way through del_block and leaves edges / pendings / blocks inconsistent
+    for cname in ("AsmConstraint", "AsmConstraintNext", "AsmConstraintTo"):
+        if cname not in m.classes:
+            continue
+        cdef = m.classes[cname]
+        valued = sorted(st.name for st in cdef.body if isinstance(st, ast.FunctionDef) and st.name in ("__eq__", "__hash__", "__ne__", "__lt__", "__cmp__"))
+        init = [st for st in cdef.body if isinstance(st, ast.FunctionDef) and st.name == "__init__"]
+        writable = cname != "AsmConstraint" or any(isinstance(n, ast.Assign) and any(dotted(t) in ("self.loc_key", "self.c_t") for t in n.targets)
+                                                   for f_ in init for n in walk_body(f_))
+        frozen = any(isinstance(st, ast.Assign) and norm(st.targets[0]) in ("loc_key", "c_t") and "property(" in norm(st.value) for st in cdef.body)
+        ck.ob("R6", "%s:identity-hash" % cname, not valued or (frozen and not writable), m.where(cdef),
+              "%s defines %s while its target / kind are writable attributes and its instances are members of the set AsmBlock.bto: a "
+              "constraint changed in place can no longer be found (or removed) in the set" % (cname, valued))
 
     # ---------------------------------------------------------------- R1
     fn = meths.get("add_edge")
